@@ -524,6 +524,11 @@ func (e *explorer) leaf(w *world, path []step) {
 		return
 	}
 	for i, n := range w.nodes {
+		// Deep trees (depth >= 4): every node was already observed as a leaf of the shallower trees and
+		// is guarded by the snapshot invariant afterwards; only the two newest nodes are observed again.
+		if len(path) >= 4 && i < len(w.nodes)-2 {
+			continue
+		}
 		var got, want string
 		switch e.kind {
 		case "module":
@@ -581,6 +586,9 @@ func (e *explorer) dfs(w *world, path []step) {
 			ok := e.apply(w, path, s)
 			np := append(path, s)
 			if ok {
+				if len(np) >= 3 && len(np) < e.depth {
+					e.leaf(w, np) // interior states of deep explorations are observed too
+				}
 				e.dfs(w, np)
 			} else {
 				e.leaf(w, np)
@@ -673,6 +681,8 @@ func main() {
 		}
 	}
 	comp["distinct_guest_observations"] = distinctObs
+	os.RemoveAll(hostA) // Finish exits the process, so deferred removals would not run
+	os.RemoveAll(hostB)
 	run.Finish(fw.Coverage{
 		Evaluations: trans, DistinctNontriv: states, States: states, Transitions: trans, TracesValidated: trans,
 		Rule: "state = derivation tree (set of configuration nodes, each with the history that produced it); transition = With.../Instantiate applied to ANY existing node; every transition executes the real method; a state is non-trivial when it has >=2 nodes (all but the roots); distinct = distinct derivation histories (stateless enumeration, no merging)",
